@@ -535,8 +535,16 @@ func (b *BaseStore) Load(ctx context.Context, amount int) error {
 
 	// @FIXME(gfanton): chan progress should be created and close on ipfs-log
 	progress := make(chan ifacelog.IPFSLogEntry)
-	defer close(progress)
+	progressDone := make(chan struct{})
+	// the reader recalculates the status: wait for it, so that it is not still doing so
+	// for the last entry once Load has returned (a Close that follows resets the status)
+	defer func() {
+		close(progress)
+		<-progressDone
+	}()
 	go func() {
+		defer close(progressDone)
+
 		// drain until the channel is closed: the fetcher sends on it outside any
 		// select and would block forever if the reader left on cancellation
 		for entry := range progress {
